@@ -129,6 +129,12 @@ class MarkdownRenderer(BaseRenderer):
         self.max_line_length = max_line_length
         self.normalize_whitespace = normalize_whitespace
 
+    def __enter__(self):
+        # as in __init__: link reference definitions are read by LinkReferenceDefinitionBlock
+        if block_token.Footnote in block_token._token_types:
+            block_token.remove_token(block_token.Footnote)
+        return super().__enter__()
+
     def render(self, token: token.Token) -> str:
         """
         Renders the tree of tokens rooted at the given token into markdown.
